@@ -84,6 +84,8 @@ pub mod mpsc {
         cap: usize,
         rx_closed: bool,
         senders: usize,
+        /// slots handed out by `try_reserve` and not yet used
+        reserved: usize,
         rx_waker: Option<Waker>,
         tx_waker: Option<Waker>,
     }
@@ -97,7 +99,7 @@ pub mod mpsc {
         }
     }
     fn new<T>(cap: usize) -> Arc<Shared<T>> {
-        Arc::new(Shared(UnsafeCell::new(Chan { q: Ring::new(), cap, rx_closed: false, senders: 1, rx_waker: None, tx_waker: None })))
+        Arc::new(Shared(UnsafeCell::new(Chan { q: Ring::new(), cap, reserved: 0, rx_closed: false, senders: 1, rx_waker: None, tx_waker: None })))
     }
     pub struct Sender<T>(Arc<Shared<T>>);
     pub struct Receiver<T>(Arc<Shared<T>>);
@@ -129,7 +131,7 @@ pub mod mpsc {
         if c.rx_closed {
             return Err(TrySendError::Closed(v));
         }
-        if c.q.len >= c.cap {
+        if c.q.len + c.reserved >= c.cap {
             return Err(TrySendError::Full(v));
         }
         c.q.push(v);
@@ -187,6 +189,19 @@ pub mod mpsc {
         pub fn send(&self, v: T) -> SendFut<'_, T> {
             SendFut { tx: self, v: Some(v) }
         }
+        /// tokio's `try_reserve`: a slot is set aside now; `Permit::send` cannot fail; dropping the
+        /// permit gives the slot back.
+        pub fn try_reserve(&self) -> Result<Permit<'_, T>, TrySendError<()>> {
+            let c = self.0.get();
+            if c.rx_closed {
+                return Err(TrySendError::Closed(()));
+            }
+            if c.q.len + c.reserved >= c.cap {
+                return Err(TrySendError::Full(()));
+            }
+            c.reserved += 1;
+            Ok(Permit { tx: self })
+        }
         pub fn strong_count(&self) -> usize {
             self.0.get().senders
         }
@@ -195,10 +210,33 @@ pub mod mpsc {
         }
         pub fn capacity(&self) -> usize {
             let c = self.0.get();
-            c.cap - c.q.len
+            c.cap - c.q.len - c.reserved
         }
         pub fn max_capacity(&self) -> usize {
             self.0.get().cap
+        }
+    }
+    pub struct Permit<'a, T> {
+        tx: &'a Sender<T>,
+    }
+    impl<T> Permit<'_, T> {
+        pub fn send(self, v: T) {
+            let c = self.tx.0.get();
+            c.reserved -= 1;
+            c.q.push(v);
+            if let Some(w) = c.rx_waker.take() {
+                w.wake();
+            }
+            core::mem::forget(self);
+        }
+    }
+    impl<T> Drop for Permit<'_, T> {
+        fn drop(&mut self) {
+            let c = self.tx.0.get();
+            c.reserved -= 1;
+            if let Some(w) = c.tx_waker.take() {
+                w.wake();
+            }
         }
     }
     /// `async fn recv` of tokio as a hand-written future (see `SendFut`).
@@ -225,7 +263,7 @@ pub mod mpsc {
             if c.rx_closed {
                 return Poll::Ready(Err(SendError(me.v.take().expect("polled after completion"))));
             }
-            if c.q.len >= c.cap {
+            if c.q.len + c.reserved >= c.cap {
                 c.tx_waker = Some(cx.waker().clone());
                 return Poll::Pending;
             }
